@@ -14,7 +14,7 @@ use ebml_iterable::tools;
 pub static DEF: PropDef = PropDef {
     id: "C16",
     level: "exploration",
-    rule: "decoder side: arr_to_u64 / arr_to_i64 / arr_to_f64 on all slices of length 0..2 (exhaustive), boundary patterns and random slices of length 3..12, every length 13..80 and lengths around powers of two up to 64 KiB compared with the reference big-endian / sign-extending / IEEE-754 decoders; writer side: single-element documents (UnsignedInt, Integer, Float root elements; ids of 1-8 bytes, zero bytes inside the id forced in a third of the cases) written by the real TagWriter for lattice + random 64-bit values, header decoded with the reference decoder, payload width must be the minimal of 1/2/4/8 (8 for floats) and decode back bit-for-bit through the repo's decoders. Distinct-nontrivial = (function, slice length, sign/top-bit class) or (type, payload width, value class).",
+    rule: "decoder side: arr_to_u64 / arr_to_i64 / arr_to_f64 on all slices of length 0..2 (exhaustive), boundary patterns and random slices of length 3..12, every length 13..80 and lengths around powers of two up to 64 KiB, and untouched zero slices of 2^29 and 2^29+8 bytes (2^29-8 .. 2^29+8 and 2^32 .. 2^32+8 in the thorough tier: lengths at which 32-bit length or bit-count arithmetic wraps), compared with the reference big-endian / sign-extending / IEEE-754 decoders; writer side: single-element documents (UnsignedInt, Integer, Float root elements; ids of 1-8 bytes, zero bytes inside the id forced in a third of the cases) written by the real TagWriter for lattice + random 64-bit values, header decoded with the reference decoder, payload width must be the minimal of 1/2/4/8 (8 for floats) and decode back bit-for-bit through the repo's decoders. Distinct-nontrivial = (function, slice length, sign/top-bit class) or (type, payload width, value class).",
     assumptions: &["reference decoders in refcodec.rs are correct", "an empty slice means 0 for both integer decoders, as the property states"],
     cases_quick: 64,
     cases_thorough: 2_048,
@@ -22,6 +22,41 @@ pub static DEF: PropDef = PropDef {
     exhaustive_note: Some("all byte slices of length 0..2 for the three decoders"),
     run,
 };
+
+fn check_giant_slice(c: &mut Case, len: usize) {
+    use std::alloc::{GlobalAlloc, Layout, System};
+    let layout = Layout::from_size_align(len, 16).unwrap();
+    let p = unsafe { System.alloc_zeroed(layout) };
+    if p.is_null() {
+        c.count("giant_slices_unavailable");
+        return;
+    }
+    let s: &[u8] = unsafe { std::slice::from_raw_parts(p, len) };
+    // the error values carry a copy of the slice (never formatted here); for the 4 GiB lengths the allocation
+    // ceiling is lifted while the three calls run
+    let ceiling = crate::alloc::CEILING.load(std::sync::atomic::Ordering::Relaxed);
+    if len as u64 >= ceiling {
+        crate::alloc::CEILING.store(len as u64 + (1 << 20), std::sync::atomic::Ordering::Relaxed);
+    }
+    let results = [
+        ("arr_to_u64", guard(1 << 20, || tools::arr_to_u64(s).map(|_| ()).map_err(|_| ()))),
+        ("arr_to_i64", guard(1 << 20, || tools::arr_to_i64(s).map(|_| ()).map_err(|_| ()))),
+        ("arr_to_f64", guard(1 << 20, || tools::arr_to_f64(s).map(|_| ()).map_err(|_| ()))),
+    ];
+    crate::alloc::CEILING.store(ceiling, std::sync::atomic::Ordering::Relaxed);
+    unsafe { System.dealloc(p, layout) };
+    for (name, r) in results {
+        c.eval();
+        c.count("slices_decoded");
+        c.count("giant_slices_decoded");
+        match r {
+            Err(cg) => c.violation(format!("C16/{}/giant-slice/{}", name, cg.sig()), format!("{}(zero slice of {} bytes) {}", name, len, cg.text()), J::obj().set("slice_len", J::u(len))),
+            Ok(Ok(())) => c.violation(format!("C16/{}/giant-slice/accepted", name), format!("{}(zero slice of {} bytes) returned a value; slices longer than 8 bytes must be rejected", name, len), J::obj().set("slice_len", J::u(len))),
+            Ok(Err(_)) => {}
+        }
+    }
+    c.nontrivial(mix(0x61a27, len as u64));
+}
 
 fn check_slice(c: &mut Case, s: &[u8]) {
     c.eval();
@@ -208,6 +243,19 @@ fn run(c: &mut Case) {
             for b in 0..=255u8 {
                 check_slice(c, &[a as u8, b]);
             }
+        }
+    }
+    // giant slices (lengths at which 32-bit length arithmetic wraps or bit counts overflow): zero pages straight from
+    // the system allocator, never touched — every decoder must answer with an error without reading them
+    if idx == 0 {
+        let mut lens = vec![1usize << 29, (1 << 29) + 8];
+        if c.tier == crate::runner::Tier::Thorough {
+            lens.extend([(1usize << 29) - 8, (1 << 29) + 1, (1 << 29) + 4]);
+            // 32-bit truncation of the length: needs a 4 GiB copy for the error value (see below)
+            lens.extend([1usize << 32, (1 << 32) + 1, (1 << 32) + 4, (1 << 32) + 8]);
+        }
+        for len in lens {
+            check_giant_slice(c, len);
         }
     }
     // long slices: every length up to 80 and lengths around powers of two (the property says: every byte slice)
